@@ -82,10 +82,21 @@ CHECKS = {
          "(exact rationals) is run from the LAPACK start recorded from the implementation and must end on the same rows (near-ties of "
          "the arg-max / tolerance are detected and discarded). All postconditions of both routines (distinct rows, non-singular "
          "submatrix, C[idx]=I, |C|≤tol unless capped, rectangular bounds r≤K≤maxK, row norms ≤ tol) by a NumPy oracle over Gaussian, "
-         "orthonormal, duplicated-row and tiny-row matrices.",
-    note="Trusted: Lean kernel + standard axioms; LAPACK getrf/trtrs (start recorded, contract C·A[idx]=A assumed); harness glue; "
-         "sampling; float near-ties discarded and counted. loop_reconstructs assumes the arg-max returns a row index < r (a property "
-         "of the model's own argmaxAbs, exercised by the correspondence). rect_maxvol has no Lean model (oracle only).",
+         "orthonormal, duplicated-row and tiny-row matrices."
+         'EXTENSION (rectangular routine): Model/RectMaxvol.lean follows py_rect_maxvol (all parameter clamps, chosen / '
+         'row_norm_sqr bookkeeping, first-maximum argmax among unchosen rows, the rank-one update C ← [C − l·v⊗c, l·v], the '
+         'final C[index] = I) from the start state py_maxvol returns; proved over any ordered field and all sizes: '
+         'rect_reconstructs (C·A[index[:K]] = A along the whole loop — the Sherman–Morrison step), rect_distinct and the K '
+         'bounds r ≤ K ≤ maxK (rect_loop_K_ge / _le / _exit), rect_row_norms (the maintained row_norm_sqr IS the squared row '
+         'norm, so on exit below maxK every unchosen candidate row has norm ≤ tol), rect_identity_rows, not_tall_returns_all (N '
+         '≤ r: all rows and the identity, both routines), rect_maxvol_spec. The compiled model (exact rationals) is compared '
+         'with py_rect_maxvol by a battery (c17_rect.py; exact ties of squared norms or at the tolerance are recognised by an '
+         'exact replay and discarded).',
+    note='Trusted: Lean kernel + standard axioms; LAPACK getrf/trtrs (start recorded, contract C·A[idx]=A assumed); harness '
+         'glue; sampling; float near-ties discarded and counted. Distinctness of the rectangular routine needs minK ≤ '
+         'top_k_index after the clamps (automatic for the default top_k_index=-1); rect_exhausted_repeats proves the library '
+         'returns repeated rows otherwise (py_rect_maxvol(A, 1.0, minK=3, top_k_index=2) on a 4×2 matrix) — an '
+         'explicit-parameter corner outside what cross() uses, recorded in DESIGN §6.10.',
     tech="Lean 4 proof (rank-1 update identity; loop invariant by induction on fuel) + kernel-recording correspondence + NumPy oracle",
     ref="§3 C17"),
  "C04": dict(
@@ -101,12 +112,22 @@ CHECKS = {
          "the QR and SVD answers recorded from torch.linalg.qr/svd in-process and compared core-for-core with Tensor.round_tt; the theorem's hypotheses (left-orthonormal "
          "state, kernel contract) and its conclusion (error² = Σ tails) are validated on every such run; every rank chosen inside "
          "round_tt/round_tucker/round is compared with rankSelect. The bound for the other formats, round_tucker, round, "
-         "algorithm='eig' and conditioning up to 1e6 is decided by a dense oracle search.",
-    note="PARTIAL: the error theorems cover round_tt with algorithm='svd' and no absolute-zero special case (TT cores replayed end to "
-         "end; TT-Tucker through the isometry theorem, not replayed); eig and round_tucker are open statements in Props/C04.lean. Trusted: Lean kernel + standard axioms; SVD/eigh "
-         "kernels (answers recorded; contract validated numerically per call, not verified); harness glue; sampling; float near-ties "
-         "between cumsum and δ² are discarded and counted. Known findings: tensors of norm < 1e-12 are treated as zero (absolute "
-         "threshold 1e-13).",
+         "algorithm='eig' and conditioning up to 1e6 is decided by a dense oracle search."
+         "EXTENSION (round_tucker, round): Model/RoundTucker.lean follows the loop of round_tucker (QR of the core's mode "
+         'unfolding, R into the factor, truncated SVD of the factor, remainder into the core, right_orthogonalize) with the four '
+         'kernel answers of every iteration as inputs with contracts; roundTucker_error_eq — the squared error of the sweep is '
+         'EXACTLY the sum of the N discarded tails (Pythagoras, also when rmax caps a rank); roundTucker_within_eps (≤ eps²‖T‖² '
+         "with the code's eps/sqrt(N) split when no cap binds); roundTucker_rank (new Tucker ranks ≤ old and ≤ rmax); "
+         'roundTucker_end_to_end (gauge derived from the QR contracts of orthogonalize(-1) for TT inputs); round_within_eps for '
+         'the combined round() (square-root-free triangle inequality). The loop is replayed by the compiled model with the '
+         'recorded kernel answers and compared core-for-core with Tensor.round_tucker (battery c04_round_tucker.py); the defect '
+         'it exposed (dim= subsets truncated every mode) was repaired in /repo.',
+    note="PARTIAL: the error theorems cover algorithm='svd' without the absolute-zero special case; algorithm='eig', batch "
+         'tensors and dim= subsets of round_tucker are not modelled (oracle only); for inputs that already carry Tucker factors '
+         'the gauge after orthogonalize(-1) is a hypothesis of the round_tucker theorems (validated numerically on every '
+         'replay). Known findings: tiny norms below the 1e-13 threshold; eig with a rank cap on a rank-deficient unfolding. '
+         'Trusted: Lean kernel + standard axioms; SVD/QR/eigh kernels (answers recorded; contracts validated numerically on '
+         'every recorded call); harness glue; NumPy dense oracle; sampling.',
     tech="Lean 4 proof of the round_tt error bound (Pythagoras over the sweep) and of the rank decision logic + kernel-recording "
          "core-level correspondence + dense error-bound oracle",
     ref="§3 C04"),
@@ -160,9 +181,19 @@ CHECKS = {
          "denominator (empty term removed) IS the variance and the numerator a sum of variance components. "
          "anova_decomposition/undo, dot and mul are tied to /repo core-for-core (C10, C06, C02 correspondences); the Sobol values, "
          "[0,1] range, total ≥ component, dimension distribution, mean dimension and the caller's marginals being untouched are checked "
-         "against a brute-force inclusion–exclusion ANOVA in NumPy.",
-    note="Trusted: Lean kernel + standard axioms; harness glue; NumPy brute-force oracle; sampling. sobol()'s own glue (removing the empty term, weighting rows, clamped mask gather, identity core for one-hot masks) has no Lean "
-         "model and is covered by the oracle only.",
+         "against a brute-force inclusion–exclusion ANOVA in NumPy."
+         'EXTENSION: the WHOLE routines are now modelled line by line (Model/Sobol.lean: anova_decomposition with None '
+         'marginals, the empty-term subtraction through getitem, the three branches of the marginal weighting, tn.mask as a '
+         'clamped gather, closed and open-bond (one-hot) branches of the final dot/division; mean_dimension, '
+         'dimension_distribution on the weight automata of C16) and proved: sobol_eq / sobol_eq_subsets (the result IS Σ_u '
+         'mask(u)·varcomp(u) / Σ_u varcomp(u)), total_variance, varcomp_eq_term_variance; over an ordered field varcomp ≥ 0, '
+         'sobol_mem_unit (0/1 and [0,1]-valued masks give indices in [0,1]), sobol_mono (pointwise larger mask, larger index: '
+         'total ≥ closed ≥ variance component), dimension_distribution_sum (sums to 1), mean_dimension_eq_sum (= Σ_k k·dist(k)), '
+         'mean_dimension_ge_one. The three routines are compared with /repo and with a dense oracle by a correspondence battery '
+         '(c09_sobol.py); N-th roots / reciprocals are kernel answers with algebraic contracts.',
+    note='Trusted: Lean kernel + standard axioms; harness glue; NumPy brute-force oracle; sampling. Not modelled: the mask= '
+         'variants of mean_dimension / dimension_distribution, the batch guard. Zero total variance gives 0/0 = nan in the code '
+         'and 0 in the field model (excluded by hypothesis, skipped by the battery).',
     tech="Lean 4 proof (composition of C06/C02/C10 theorems) + differential correspondence of the building blocks + brute-force oracle",
     ref="§3 C09"),
  "C10": dict(
@@ -170,10 +201,18 @@ CHECKS = {
          "row 0 integrates against the marginal, row i+1 evaluates and subtracts the integral (anovaL_row); B·A=I (undo is the inverse, "
          "no condition on weights), lifted to tensors: undo_anova_decomposition(anova_decomposition(t)) = t (undo_anova_dense); rows 1..I have zero weighted mean when Σw=1 (centred terms); normalised weights sum to 1 and are "
          "scale-invariant. anova_decomposition and undo are tied to /repo core-for-core; all term-level claims (each term equals the "
-         "brute-force term, depends only on its variables, orthogonality, variance additivity, truncate_anova) by a NumPy oracle.",
-    note="Trusted: Lean kernel + standard axioms; harness glue; NumPy brute-force oracle; sampling. undo_anova_dense proves undo∘anova = id on the dense arrays of every "
-         "format. Open (not formalised): uniqueness of the terms, truncate_anova (oracle only); orthogonality / variance additivity is "
-         "C09.anova_parseval.",
+         "brute-force term, depends only on its variables, orthogonality, variance additivity, truncate_anova) by a NumPy oracle."
+         "EXTENSION: truncate_anova is modelled as a whole (anova → tn.mask with the extended tensor's idxs → undo → the "
+         'keepdim=False squeeze through accepted_inputs) and proved: truncate_anova_dense (the result at x is Σ_S '
+         "mask[S]·f_S(x)), with f_S given both as the extended array's entry and as the independent inclusion–exclusion formula "
+         'Σ_{T⊆S} (−1)^{|S|−|T|} E[f | x_T] (anova_term_bruteforce); anova_term_depends_only, anova_term_centered, '
+         'anova_empty_term, anova_terms_sum, anova_terms_orthogonal (distinct terms are orthogonal under the product measure), '
+         'truncate_all, truncate_keeps_selected, and the keepdim=False theorems (the dropped modes are exactly those no selected '
+         'subset contains and the result is constant along them). Compared with /repo by a correspondence battery '
+         '(c10_truncate.py).',
+    note='Trusted: Lean kernel + standard axioms; harness glue; NumPy brute-force oracle; sampling. Hypotheses of the truncate '
+         'theorems: the mask has as many modes as the tensor; in the keepdim=False path its entries are natural numbers (the '
+         'model of accepted_inputs); marginals have non-zero sums.',
     tech="Lean 4 proof (L1 with the ANOVA operator; matrix identities over a field) + differential correspondence + brute-force oracle",
     ref="§3 C10"),
  "C15": dict(
@@ -262,11 +301,14 @@ CHECKS = {
          "histories of assignments by induction; and for the WHOLE routine Tensor.setitem (key processing, shape check, absorption of Tucker "
          "factors, the empty-selection shortcut): setitem_scalar, setitem_tensor (compressed value, any formats), setitem_dense (dense value "
          "through _full_rank_tt, C01.roundtrip) — the routine succeeds and selected entries take the value while all others keep theirs. Model (incl. key normalisation, value conversion, singleton modes at integer positions, "
-         "empty selections, shape errors) tied to /repo by bit-exact comparison of all cores after every step of generated histories.",
-    note="Trusted: Lean kernel + standard axioms; harness/driver glue; NumPy assignment as oracle; sampling correspondence. The wrapper theorems take "
-         "what key processing produced as hypotheses (characterised in C03) together with sels.length = t.length; compressed values under "
-         "keys with integer entries (singleton modes re-inserted through getitem) remain an open statement in Props/C11.lean; the composed "
-         "model is compared with the code on every run, including a malformed-key stream that must raise and leave t unchanged.",
+         "empty selections, shape errors) tied to /repo by bit-exact comparison of all cores after every step of generated histories."
+         "EXTENSION: setitem_tensor_ints — compressed values under ANY accepted key, integers included (the value's singleton "
+         'modes are re-inserted as the code does, proved equal to tn.unsqueeze); setitem_sels_length (the former hypothesis is '
+         "now a theorem); setitem_tensor_error_iff / setitem_dense_error_iff — the assignment raises iff the value's shape "
+         'differs from the selected shape (no broadcasting), and then returns no new tensor.',
+    note='Trusted: Lean kernel + standard axioms; harness/driver glue; NumPy assignment as oracle; sampling correspondence. The '
+         'composed model is compared with the code on every run, including a malformed-key stream that must raise and leave t '
+         'unchanged, and by the battery c03_sqops.py for values under keys with integers.',
     tech="Lean 4 proof (restriction/embedding lemmas + C02 add/sub theorems; induction over the history) + differential correspondence",
     ref="§3 C11"),
  "C03": dict(
@@ -274,10 +316,17 @@ CHECKS = {
          "key in the grammar (ints incl. negative, positive-step slices clipped as Python does, None, Ellipsis, one contiguous run of "
          "index arrays) the result read at an output index equals the original tensor read at the source index (natural indexing), "
          "scalar exit included; second run / out-of-range / bad step are rejected. Model tied to /repo by bit-exact comparison of the "
-         "emitted cores and factors and of the accepted/rejected key sets.",
-    note="Trusted: Lean kernel + standard axioms; harness/driver glue; NumPy as oracle for natural indexing (two-step evaluation); "
-         "sampling correspondence. The shape clause is checked by the correspondence (model shape vs implementation vs NumPy); the "
-         "theorem is stated for keys that fit the tensor (fits) — ill-formed keys are covered by the error theorems and the malformed stream.",
+         "emitted cores and factors and of the accepted/rejected key sets."
+         'EXTENSION: getitem_spec — for EVERY key of the grammar, whenever t[key] returns, the result has the NumPy output '
+         'shape, is a scalar iff that shape is empty, is otherwise well formed, and reads the source-index values (no side '
+         'hypotheses left); getitem_ok_iff characterises acceptance (at most one run of equal-length index arrays); squeeze / '
+         "unsqueeze / unbind are modelled with the code's own key construction (dim=None, int, list, negative, duplicates, the "
+         'assert) and proved: squeeze_dense, squeeze_none_dense, unsqueeze_dense, unbind_dense and their error theorems. The '
+         'three routines and assignment of compressed values under keys with integers are compared with /repo by a '
+         'correspondence battery (harness/batteries/c03_sqops.py).',
+    note='Trusted: Lean kernel + standard axioms; harness/driver glue; NumPy as oracle for natural indexing (two-step '
+         'evaluation); sampling correspondence. The unbind corner −2N ≤ dim < −N is modelled and compared but has no theorem; '
+         'dim is modelled as a list (a tuple dim makes squeeze raise in the code).',
     tech="Lean 4 proof (state-machine invariant: pending integer factor × processed suffix = chain read through the key) + differential correspondence",
     ref="§3 C03"),
  "C01": dict(
